@@ -20,6 +20,7 @@ import (
 	"testing"
 	"time"
 
+	"github.com/ProtonMail/gopenpgp/v2/crypto"
 	"github.com/siderolabs/gen/optional"
 	"go.uber.org/zap"
 
@@ -27,6 +28,7 @@ import (
 	"github.com/cosi-project/runtime/pkg/controller/conformance"
 	"github.com/cosi-project/runtime/pkg/controller/runtime"
 	"github.com/cosi-project/runtime/pkg/controller/runtime/options"
+	"github.com/cosi-project/runtime/pkg/keystorage"
 	"github.com/cosi-project/runtime/pkg/resource"
 	"github.com/cosi-project/runtime/pkg/state"
 	"github.com/cosi-project/runtime/pkg/state/impl/inmem"
@@ -629,5 +631,32 @@ func TestDRF_Wire(t *testing.T) {
 		time.Sleep(2 * time.Millisecond)
 		cancel()
 		wg.Wait()
+	}
+}
+
+// TestDRF_KeyStorage: one key storage, concurrent initialisation, slot changes, retrievals and serialisation
+// (C20).
+func TestDRF_KeyStorage(t *testing.T) {
+	type pair struct{ pub, priv string }
+	var keys [2]pair
+	for i := range keys {
+		k, err := crypto.GenerateKey(fmt.Sprint("k", i), fmt.Sprintf("k%d@example.org", i), "x25519", 0)
+		if err != nil {
+			t.Fatal(err)
+		}
+		keys[i].priv, _ = k.Armor()
+		keys[i].pub, _ = k.GetArmoredPublicKey()
+	}
+	master := []byte("this key len is exactly 32 bytes")
+	for it := 0; it < 6; it++ {
+		ks := &keystorage.KeyStorage{}
+		par(
+			func() { ks.Initialize(master, "s0", keys[0].pub) },             //nolint:errcheck
+			func() { ks.Initialize(master, "s1", keys[1].pub) },             //nolint:errcheck
+			func() { ks.AddKeySlot("s1", keys[1].pub, "s0", keys[0].priv) }, //nolint:errcheck
+			func() { ks.GetMasterKey("s0", keys[0].priv) },                  //nolint:errcheck
+			func() { ks.MarshalBinary() },                                   //nolint:errcheck
+			func() { ks.DeleteKeySlot("s0", keys[0].priv) },                 //nolint:errcheck
+		)
 	}
 }
